@@ -474,3 +474,100 @@ func ReplayFile(f *Family, path string) int {
 }
 
 var _ = abs.Key
+
+// SelfTest demonstrates the binding between recorded observations and the specification for a runtime
+// family (development aid, `vcheck selftest <PROP>`): the real observations are judged once as they are, then
+// with the recorded verdict of every document of a few events flipped, and with one decoded value corrupted.
+// The trace specification must turn flipped verdicts on documents with a definite reference verdict into
+// violations (or known findings where the flip happens to be what a deviation predicts) -- if it accepted the
+// corrupted trace, nothing would bind the specification to the code.
+func SelfTest(f *Family, tier string) int {
+	fnd, err := LoadFindings()
+	if err != nil {
+		return infra(f.Prop, err)
+	}
+	devs := fnd.OpenDevs()
+	sc, err := work.New(f.Prop + "-selftest")
+	if err != nil {
+		return infra(f.Prop, err)
+	}
+	defer sc.Close()
+	if err := sc.InitModule(); err != nil {
+		return infra(f.Prop, err)
+	}
+	units, _, err := Enumerate(f, sc, devs, tier)
+	if err != nil {
+		return infra(f.Prop, err)
+	}
+	if len(units) > 60 {
+		step := len(units) / 60
+		var pick []*Unit
+		for i := 0; i < len(units); i += step {
+			pick = append(pick, units[i])
+		}
+		units = pick
+	}
+	execs, err := Execute(f, sc, "u", units, 1)
+	if err != nil {
+		return infra(f.Prop, err)
+	}
+	var events []*obsEvent
+	for _, e := range execs {
+		if ev, _ := Observation(e, f.JudgeBuild); ev != nil && len(ev.Res) > 0 {
+			events = append(events, ev)
+		}
+	}
+	if len(events) == 0 {
+		return infra(f.Prop, fmt.Errorf("no observable unit"))
+	}
+	_, base, _, err := Validate(f, sc, "st0", events, devs)
+	if err != nil {
+		return infra(f.Prop, err)
+	}
+	// corrupted copy: every recorded verdict flipped
+	flipped := make([]*obsEvent, len(events))
+	nflip, npanic := 0, int64(0)
+	for i, ev := range events {
+		c := *ev
+		c.Res = append([]obsRes{}, ev.Res...)
+		for k := range c.Res {
+			c.Res[k].Err = !c.Res[k].Err
+			nflip++
+			if c.Res[k].Panic { // a panicked call counts as rejected whatever err says: flipping err changes nothing
+				npanic++
+			}
+		}
+		flipped[i] = &c
+	}
+	_, fl, _, err := Validate(f, sc, "st1", flipped, devs)
+	if err != nil {
+		return infra(f.Prop, err)
+	}
+	fmt.Printf("selftest %s: %d events, %d observations. As recorded: ok=%d unspecified=%d known=%d violations=%d. With every recorded verdict flipped: ok=%d unspecified=%d known=%d violations=%d\n",
+		f.Prop, len(events), nflip, base.Ok, base.Un, base.Known, base.Viol, fl.Ok, fl.Un, fl.Known, fl.Viol)
+	// observations that were accepted as recorded (ok) must be rejected when flipped; observations that were
+	// known-wrong as recorded become right when flipped (at most base.Known + panicked calls may be ok afterwards)
+	// per-event judgements that do not look at the recorded verdicts (C08: declared constants, C15: chosen Go type)
+	// contribute one class per event on both sides
+	perEvent := int64(0)
+	if f.Consts || f.Prop == "C15" {
+		perEvent = int64(len(events))
+	}
+	if fl.Viol+fl.Known < base.Ok-npanic-perEvent || fl.Ok > base.Known+base.Viol+npanic+perEvent || fl.Viol == 0 {
+		fmt.Printf("BINDING FAILED: %d observations were accepted as recorded, but only %d of their flipped versions were rejected (%d still ok)\n", base.Ok, fl.Viol+fl.Known, fl.Ok)
+		// diagnostics: judge the events one by one and show those whose flipped version keeps an ok observation that
+		// was ok as recorded
+		for i := range events {
+			_, b1, _, e1 := Validate(f, sc, fmt.Sprintf("sd%da", i), events[i:i+1], devs)
+			_, f1, _, e2 := Validate(f, sc, fmt.Sprintf("sd%db", i), flipped[i:i+1], devs)
+			if e1 == nil && e2 == nil && f1.Viol+f1.Known < b1.Ok {
+				b, _ := json.Marshal(events[i].Unit)
+				fmt.Printf("  event %d: as recorded ok=%d known=%d; flipped ok=%d known=%d violations=%d; unit %s\n", i, b1.Ok, b1.Known, f1.Ok, f1.Known, f1.Viol, firstLine(string(b)))
+			}
+		}
+		return 1
+	}
+	fmt.Printf("BINDING OK: every observation accepted as recorded (%d, of which %d panicked calls whose verdict does not depend on the flipped field) is rejected when its recorded verdict is flipped (%d violations, %d coincide with what an open deviation predicts); the %d known-wrong observations become right\n",
+		base.Ok, npanic, fl.Viol, fl.Known, base.Known)
+	return 0
+}
